@@ -55,12 +55,15 @@ def spec(prop, tier):
     q = tier == "quick"
     if prop == "C01":
         if q:
-            return hist_runs(["P1", "P3", "F1", "F3", "V1", "V3", "V4", "M1"], tier, depth=8)
+            primary = ["P1", "P3", "F1", "F3", "V1", "V3", "V4", "M1"]
+            return hist_runs(primary, tier, depth=8) + hist_runs([l for l in ALL_LISTS if l not in primary], tier, depth=6)
         return hist_runs(ALL_LISTS, tier, allocs=("AE", "NP"), nmax=4, cmax=3, bmax=6, depth=7)
     if prop == "C16":
         if q:
-            return hist_runs(["P1", "F3", "V1", "V3", "M1"], tier, depth=7) + \
-                pair_runs(["F3", "V1", "V3"], ["AE", "PP"], tier, 5)
+            primary = ["P1", "F3", "V1", "V3", "M1"]
+            return hist_runs(primary, tier, depth=7) + \
+                [R(l, "AE", "hist", depth=5, junk=1) for l in ALL_LISTS if l not in primary] + \
+                pair_runs(["F3", "V1", "V3"], ["AE", "PP"], tier, 5) + pair_runs(["P3", "F2", "V5", "M2"], ["NP"], tier, 4)
         return hist_runs(ALL_LISTS, tier, allocs=("AE", "NP"), nmax=4, cmax=3, bmax=6, depth=6) + \
             pair_runs(ALL_LISTS, ["AE", "NP", "PP"], tier, 5)
     if prop in ("C02", "C03", "C04", "C05"):
@@ -68,7 +71,7 @@ def spec(prop, tier):
         if q:
             pick = {"C02": ["P2", "F2", "V1", "V2", "V5", "V6", "M1", "M2"], "C03": ["P2", "F2", "V1", "V5", "V6", "V7", "M1"],
                     "C04": ["P3", "F2", "F5", "V2", "V5", "V6", "M1", "M2"], "C05": ["P2", "F2", "V1", "V5", "V6", "M1"]}[prop]
-            runs = hist_runs(pick, tier, depth=6)
+            runs = hist_runs(pick, tier, depth=6) + [R(l, "AE", "hist", depth=5, junk=1) for l in lists if l not in pick]
             if prop in ("C03", "C05"):
                 runs += pair_runs([l for l in pick if l in ("F2", "V1", "V5", "M1")], ["NP"], tier, 4)
             if prop == "C03":
@@ -80,14 +83,17 @@ def spec(prop, tier):
         return runs
     if prop == "C06":
         if q:
-            return hist_runs(["P3", "F3", "V3", "V4", "M2"], tier, depth=7) + \
-                pair_runs(["F3", "V3"], ["AE", "NP"], tier, 5) + elem_runs(["F3", "V3"], ["NP"], tier, 3)
+            primary = ["P3", "F3", "V3", "V4", "M2"]
+            return hist_runs(primary, tier, depth=7) + [R(l, "AE", "hist", depth=6, junk=1) for l in TRACKED if l not in primary] + \
+                pair_runs(["F3", "V3"], ["AE", "NP"], tier, 5) + pair_runs(["P3", "F4", "V7", "M2", "M3"], ["NP"], tier, 4) + \
+                elem_runs(["F3", "V3"], ["NP"], tier, 3) + elem_runs(["F4", "M2", "V7"], ["NP"], tier, 2)
         return hist_runs(TRACKED, tier, allocs=("AE",), nmax=4, cmax=3, bmax=6, depth=6) + \
             pair_runs(TRACKED, ["AE", "NP", "PP"], tier, 5) + elem_runs(TRACKED, ["AE", "NP", "PP"], tier, 3)
     if prop == "C07":
         if q:
             return pair_runs(["F1", "F3", "V1", "V3"], ["AE", "NP", "PP"], tier, 5) + \
-                elem_runs(["F3", "V3"], ["NP", "PP"], tier, 3)
+                pair_runs(["P1", "F2", "V2", "V5", "M1", "M2"], ["NP", "PP"], tier, 4) + \
+                elem_runs(["F3", "V3"], ["NP", "PP"], tier, 3) + elem_runs(["F1", "V1", "M2"], ["NP", "PP"], tier, 2)
         return pair_runs(ALL_LISTS, ["AE", "NP", "PP"], tier, 5) + elem_runs(ALL_LISTS, ["AE", "NP", "PP"], tier, 3)
     if prop == "C08":
         if q:
@@ -97,18 +103,20 @@ def spec(prop, tier):
             elem_runs(["F1", "F3", "V1", "V3", "M2"], TRAIT_KINDS + ["AE", "NPS"], tier, 3)
     if prop == "C09":
         if q:
-            return pair_runs(["P1", "F1", "F3", "V1", "V3"], ["AE", "NP"], tier, 5)
+            return pair_runs(["P1", "F1", "F3", "V1", "V3"], ["AE", "NP"], tier, 5) + \
+                pair_runs(["P3", "F2", "F4", "V2", "V5", "V7", "M1", "M2"], ["AE", "NP"], tier, 4)
         return pair_runs(ALL_LISTS, ["AE", "NP", "PP"], tier, 5, nmax=3)
     if prop == "C10":
         if q:
-            return hist_runs(["F1", "V1", "V3", "M1"], tier, mode="c10", depth=4)
+            return hist_runs(["F1", "V1", "V3", "M1"], tier, mode="c10", depth=4) + \
+                hist_runs(["P1", "F3", "V2", "V5", "V7", "M2"], tier, mode="c10", depth=3)
         return hist_runs(ALL_LISTS, tier, allocs=("AE", "NP"), mode="c10", nmax=4, cmax=3, bmax=6, depth=4)
     if prop == "C11":
-        pl = ["P1", "P3", "P4", "F1", "F3"] if q else ["P1", "P3", "P4", "F1", "F3", "F4", "F5", "V1", "V3", "M2"]
+        pl = ["P1", "P3", "P4", "F1", "F3", "F4", "F5", "V1", "V3", "M2"]
         return [R(l, "AE", "proxy", nmax=3 if q else 4, cmax=1, bmax=4, depth=3 if q else 4, junk=1, fixed="2") for l in pl]
     if prop == "C12":
         if q:
-            return elem_runs(["F3", "V1", "V3"], ["AE", "NP"], tier, 4)
+            return elem_runs(["F3", "V1", "V3"], ["AE", "NP"], tier, 4) + elem_runs(["F1", "F4", "V5", "M2", "M3"], ["AE", "NP"], tier, 3)
         return elem_runs(["F1", "F3", "F4", "V1", "V3", "V5", "M2", "M3"], ["AE", "NP", "PP"], tier, 4)
     if prop == "C17":
         lists = ["F1", "F3", "V1", "V3"]
@@ -121,7 +129,7 @@ def spec(prop, tier):
             runs.append(R(l, "AE", "hist", nmax=2, cmax=1, bmax=2, depth=3, junk=1, faults=1))
         return runs
     if prop == "C18":
-        return hist_runs(ALL_LISTS if not q else ["P1", "P3", "F1", "F3", "F4", "V1", "V2", "V3", "V5", "M1", "M2"], tier,
+        return hist_runs(ALL_LISTS, tier,
                          mode="c18", nmax=2, cmax=1, bmax=2, depth=5 if q else 7)
     raise KeyError(prop)
 
